@@ -617,11 +617,11 @@ func (s *SMInst) recoverFrom(r io.Reader) error {
 	s.dmu.Lock()
 	s.data = d
 	if s.disk != nil {
+		// like Update, RecoverFromSnapshot only changes the live image of an on-disk state
+		// machine; it becomes durable with the next Sync (node.recover syncs before it shrinks
+		// the snapshot it recovered from)
 		s.disk.mu.Lock()
 		s.disk.live = s.data
-		if !s.disk.frozen {
-			s.disk.synced = s.data.clone()
-		}
 		s.disk.mu.Unlock()
 	}
 	s.dmu.Unlock()
